@@ -20,6 +20,33 @@ NOTES = ('All checks: ./check <id> --tier quick|thorough; VERIF_SEED, VERIF_TIER
          'Specifications under /verif/spec, known findings in /verif/known_findings.json, design in DESIGN.md.')
 NOT_YET = {}
 CHECKS = {
+    'C09': dict(
+        engine='tlc+vectors', technique='TLA+ reference spec (Codec.tla) checked by TLC; all vectors concretised and replayed into the real codec',
+        design_ref='DESIGN.md 2.5, 5/C09',
+        text='TLC proves the twelve round-trip laws of Codec.tla (same topics and order, no decode error, equal data, image '
+             'presence, declared height/width/format, raw pixel identity, existing jpg kept byte for byte, fresh jpg within '
+             'JpegClose, decode to declared shape, sender frame unchanged, envelope and part count, mode) on every frame set '
+             'of up to 4 topics over 6 frame states x 3 formats x data empty/non-empty x normal/hidden names x outs_jpg in '
+             '{None, True, False}, and shows each law rejects a hypothetical deviation; all emitted cases are executed on the '
+             'real MQ.frames2topicmsgs / topicmsgs2frames directly, through zeromq.py\'s message framing and through a real '
+             'zmq inproc socket, at 11-14 sizes x 8 memory layouts x 4 blob types with nested-JSON data, and the property\'s '
+             'own formula is evaluated on the result.',
+        note='state space = set of cases; JPEG numerics are an uninterpreted predicate in the spec, evaluated by the harness '
+             'as MAE <= 2 x OpenCV\'s own round-trip error + 4; data = JSON dicts with string keys, finite floats, '
+             'well-formed Unicode'),
+    'C12': dict(
+        engine='tlc+vectors', technique='TLA+ reference spec (CliWiring.tla) checked by TLC; all cases replayed into the real parse_filters / cmd_run',
+        design_ref='DESIGN.md 2.5, 5/C12',
+        text='TLC builds every command line of 1-3 (quick) / 1-4 (thorough) filters over five facet alphabets (chain, ids, '
+             'refs, ports, lists) and samples 2-6-filter command lines with -simulate; on each it evaluates the reference '
+             'ParseFilters (written phase by phase like cli/common.py) and checks UniqueIds, EverySourceBound, PortsDisjoint, '
+             'PassThrough on the intended design and on the code as it stands; every case is emitted as a vector, rendered '
+             'to a real argv with built-in filters, executed against the real parse_filters (1 in 5 through cmd_run), '
+             'compared with the reference wiring (drift) and the four laws are evaluated on the real result (violation).',
+        note='state space = set of command lines; exhaustive within the facet alphabets, 5-6 filters sampled; user-given '
+             'ports/ipc names pairwise disjoint; --outputs_metrics, unknown ids, mixed mq/non-mq output lists outside the '
+             'domain; an empty --sources=/--outputs= being ignored is reported as drift only (intent documented only in a '
+             'code comment)'),
     'C10': dict(
         engine='tlc+replay', technique='TLA+ state-machine spec (heap + frames) checked by TLC; transition-cover and simulated behaviours replayed into the real Frame class; model-free property monitors',
         design_ref='DESIGN.md 2.4, 3.2, 5/C10',
